@@ -12,7 +12,7 @@ DISTINCT_RULE = (
     "packages of 1..3 orders of each kind, cancel reports reordered / omitted, BetfairError subclasses on attempts 1..4, exchange-side completion between request and "
     "response; plus simulation runs where orders complete in flight; distinct = distinct (kind, n, outcome vector, error plan, pre-event) plans executed"
 )
-RULES = ["post-state", "count", "retry-bound", "attribution", "sim-effect", "paper-call", "paper-quiescent"]
+RULES = ["post-state", "count", "retry-bound", "attribution", "sim-effect", "paper-call", "paper-quiescent", "wire"]
 MINIMA = {"quick": {"rule_post-state": 1500, "rule_count": 1500, "rule_attribution": 600, "rule_sim-effect": 4000, "rule_paper-call": 3000, "rule_paper-quiescent": 3000}, "thorough": {"rule_post-state": 8000}}
 ASSUMPTIONS = [
     "the exchange double returns real betfairlightweight resources built from API-format JSON (DESIGN.md Appendix B')",
@@ -82,6 +82,11 @@ def plan(tier, seed):
             for exc in ("APIError", "InvalidResponse", "StatusCodeError", "ConnectionDropped", "ReadTimeout", "APIErrorReply"):
                 for k in (1, 2, 3, 4, 7):
                     cases.append({"mode": "live", "kind": kind, "n": n, "out": [0] * n, "pre": "none", "api_error": exc, "attempts": k})
+    # the same retry bound counted on the wire (local HTTP server behind a real APIClient and the execution layer's own sessions)
+    for kind in ("PLACE", "CANCEL"):
+        for how in ("503", "drop"):
+            for k in (1, 2, 3, 4, 6):
+                cases.append({"mode": "wire", "kind": kind, "how": how, "attempts": k, "n": 1 + (k % 2)})
     # async placement
     for n in (1, 2):
         for combo in itertools.product(range(len(PLACE_OUT)), repeat=n):
@@ -392,8 +397,103 @@ def run_paper(case, out):
     out.c("paper_walks")
 
 
+def run_wire(case, out):
+    """Requests counted where they arrive: a local HTTP server (loopback) behind a real betfairlightweight.APIClient and the sessions the
+    execution layer creates for itself.  Faults are HTTP 503 answers / connections closed without an answer on the first k arrivals."""
+    from .. import wire, livecases, live
+    from flumine import Flumine, clients as fclients
+    import flumine.order.orderpackage as _op
+    import time as _time
+
+    try:
+        wex = wire.WireExchange()
+    except OSError as e:  # no loopback socket in this environment: nothing observed on the wire (counted, not judged)
+        out.c("wire_unavailable")
+        return
+    st = livecases.make_strategy("W0")
+    tr = simrun.Trace()
+    simrun.attach(tr)
+    saved_time = _op.time
+    try:
+        class _NoSleep:
+            def __getattr__(s, k):
+                return getattr(_time, k)
+
+            @staticmethod
+            def sleep(x):
+                return None
+
+        _op.time = _NoSleep()  # (the back-off between the library's own retries is not waited out)
+        from flumine import config as fconfig
+
+        fconfig.simulated = False
+        client = fclients.BetfairClient(wire.api_client(wex), order_stream=False)
+        fw = Flumine(client=client)
+        client.account_details = None
+        ex_ = live.ControlledExecutor()
+        fw.betfair_execution._thread_pool = ex_
+
+        class _S:
+            stream_id = 7
+
+        st.streams = [_S()]
+        fw.strategies(st, fw.clients, fw)
+        w = live.LiveWorld.__new__(live.LiveWorld)  # only for the market-file reader
+        w.fw, w.gens, w.books, w.stream_id = fw, {}, {}, 7
+        mid = w.add_market_file(livecases.static_market())
+        w.next_book(mid)
+        m = fw.markets.markets[mid]
+        kind, k, how, n = case["kind"], case["attempts"], case["how"], case["n"]
+        orders = [livecases.make_order(st, mid, sel=701 + (i % 3), side=("BACK", "LAY")[i % 2], price=3.0 + i, size=10.0) for i in range(n)]
+        with m.transaction() as t:
+            for o in orders:
+                t.place_order(o)
+        ex_.run_all()
+        target = "placeOrders"
+        if kind == "CANCEL":
+            target = "cancelOrders"
+        first = len(wex.requests)
+        wex.fail = lambda req: (how if req["method"] == target and req["attempt"] <= k else None)
+        if kind == "PLACE":
+            orders = [livecases.make_order(st, mid, sel=701 + (i % 3), side=("BACK", "LAY")[i % 2], price=4.0 + i, size=5.0) for i in range(n)]
+            with m.transaction() as t:
+                for o in orders:
+                    t.place_order(o)
+        else:
+            with m.transaction() as t:
+                for o in orders:
+                    t.cancel_order(o)
+        ex_.run_all()
+        arrived = [r for r in wex.requests[first:] if r["method"] == target]
+        by_ref = {}
+        for r in arrived:
+            by_ref[r["customerRef"]] = by_ref.get(r["customerRef"], 0) + 1
+        out.rule("wire")
+        tags = {"kind": kind, "exec": "Betfair", "fault": how, "attempts": k, "wire": True}
+        # one logical request (one package): at most 1 + 3 arrivals at the exchange, whatever reference each arrival carries
+        if len(arrived) > 4:
+            out.v("request-arrived-more-often-than-the-retry-limit", tags, arrivals=len(arrived), refs=by_ref)
+        elif len(arrived) != min(k + 1, 4):
+            out.v("retry-count-differs", dict(tags, api_error=how, pre="none"), calls=len(arrived), expected=min(k + 1, 4))
+        for o in orders:
+            if o.status.name in ("CANCELLING", "UPDATING", "REPLACING") or o.trade.status.name == "PENDING":
+                out.v("order-left-in-flight", dict(tags, status=o.status.name, pre="-"), order=o.id)
+        out.d("wire:%s:%s:%d:%d" % (kind, how, k, n))
+    finally:
+        _op.time = saved_time
+        simrun.detach()
+        try:
+            fw.betfair_execution._thread_pool = None
+        except Exception:  # noqa: BLE001
+            pass
+        wex.close()
+
+
 def run(case):
     out = O.Out(PROPERTY)
+    if case["mode"] == "wire":
+        run_wire(case, out)
+        return out.result()
     if case["mode"] == "live":
         run_live(case, out)
     elif case["mode"] == "paper":
